@@ -140,8 +140,12 @@ def check_output(ctx, r, out, wit, at0_allowed=True):
 
 
 def check_case(ctx, r, indent, eol):
-    obj = gen.build(r)
-    out = obj.get_html_string(indent, eol)
+    try:
+        obj = gen.build(r)
+        out = obj.get_html_string(indent, eol)
+    except Exception as e:
+        ctx.violation("render-raises", "building/rendering raised %r" % e, {"recipe": r, "indent": indent, "eol": eol})
+        return False
     wit = {"recipe": r, "indent": indent, "eol": eol, "output": out[:1500]}
     return check_output(ctx, r, out, wit)
 
